@@ -140,6 +140,11 @@ class AnnotateLigands(Processor):
             # check which ligands are elligable for annotation
             if "mol_idx" in lig_attr:
                 lig_idxs = [lig_attr["mol_idx"]]
+                if "molname" in lig_attr and \
+                   any(idx not in self.topology.mol_idx_by_name[lig_attr["molname"]] for idx in lig_idxs):
+                    msg = ("Your molecule name {} does not"
+                           " match your molecule index {}.")
+                    raise IOError(msg.format(lig_attr["molname"], lig_idxs))
             elif "molname" in lig_attr:
                 lig_name = lig_attr["molname"]
                 lig_idxs = self.topology.mol_idx_by_name[lig_name]
